@@ -222,6 +222,22 @@ impl Prop for C18 {
                     }
                     for i in &targets {
                         let _ = removed.insert(w.events[*i].id.clone());
+                        // unretrievable by every path, not only by id
+                        let e = w.events[*i].clone();
+                        for (shape, f) in crate::props::c17::derived_filters(&e) {
+                            match w.query(&f) {
+                                Ok(ids) => {
+                                    if ids.contains(&e.id) {
+                                        out.fail(format!("C18:{what}:target-still-returned-by:{shape}"), format!("step {stepno}: {} was removed but a {shape} query still returns it", e.short()));
+                                        return out;
+                                    }
+                                }
+                                Err(x) => {
+                                    out.fail(format!("C18:query-error:{x}"), format!("step {stepno}"));
+                                    return out;
+                                }
+                            }
+                        }
                     }
                     if !targets.is_empty() {
                         out.label(if what == "remove" { "remove-present" } else { "vanish-with-targets" });
